@@ -134,4 +134,4 @@ RULE_C20 = ('one evaluation = one schedule of one program pair executed in a fre
             'family), or a seeded multi-switch schedule; distinct = distinct switch-point lists (thread, file:line, '
             'per-thread line count); non-trivial = at least one thread switch actually happened inside library code')
 reg(Prop('C20', {'quick': 0, 'thorough': 0}, {'quick': 100, 'thorough': 1500}, RULE_C20, level='fault_enumeration', mode='threads',
-         cfg={'quick': {'pairs': 3, 'k_per_pair': 100, 'pct_per_pair': 20, 'small': True, 'window_cap': 2000}, 'thorough': {'pairs': 8, 'all_k': True, 'pct_per_pair': 400}}))
+         cfg={'quick': {'pairs': 3, 'k_per_pair': 100, 'pct_per_pair': 20, 'small': True, 'window_cap': 2000}, 'thorough': {'pairs': 6, 'all_k_pairs': 2, 'k_per_pair': 2000, 'pct_per_pair': 400}}))
